@@ -150,6 +150,8 @@ def resolve_function(target):
     obj = mod
     for part in qual.split("."):
         obj = getattr(obj, part)
+    if isinstance(obj, property):
+        obj = obj.fget          # a property under contract: its getter
     return obj
 
 
@@ -245,6 +247,15 @@ class Harness:
         for tgt, expr in getattr(c, "externals", {}).items():
             modname, fname = tgt.split(":")
             mod = importlib.import_module(modname)
+            while "." in fname:                       # Class.method: patch the attribute of the class
+                head, fname = fname.split(".", 1)
+                mod = getattr(mod, head)
+            if expr.startswith("call "):
+                # a scripted factory: the ghost object itself is called with the original arguments
+                val = eval(expr[5:], ns)  # pylint: disable=eval-used
+                undo.append((mod, fname, getattr(mod, fname)))
+                setattr(mod, fname, val)
+                continue
             val = eval(expr, ns)  # pylint: disable=eval-used
             undo.append((mod, fname, getattr(mod, fname)))
             setattr(mod, fname, (lambda v: (lambda *a, **k: v))(val))
